@@ -187,6 +187,8 @@ def run_history(job, ops, listing_paths, tmp):
         if src:
             inp = os.path.join(tmp, f"h{os.getpid()}.current-input")
             shutil.copyfile(src, inp)
+            # `cp -p` / reproducible-build artefacts: replaced content with the SAME size and the SAME timestamp
+            os.utime(inp, ns=(1_600_000_000_000_000_000, 1_600_000_000_000_000_000))
             if inp not in written:
                 written.append(inp)
         o = run_pair(J, rule_path, macro_paths, inp, binary, job.get("fresh", False))
